@@ -254,6 +254,36 @@ fn count_receivers(by_drop: bool) {
   kani::cover!(true, "END");
 }
 
+/// after the last receiver is gone every send form of an OPEN sender reports Closed and hands the value(s) back,
+/// leaving the channel untouched (receiver_count is set to 0 directly: that drop_receiver does so is a core obligation)
+fn closed_value_sender() {
+  let (tx, rx, _a) = prefilled(false);
+  { let mut g = tx.shared.internal.lock(); g.receiver_count = 0; }
+  let s0 = snap(&tx.shared);
+  let x: u8 = kani::any();
+  let y: u8 = kani::any();
+  match tx.try_send(x) { Err(TrySendError::Closed(v)) => assert!(v == x), _ => panic!("try_send after the last receiver is gone") }
+  match tx.try_send_batch(vec![x, y]) { Err(e) => { assert!(e.sent == 0 && e.unsent.len() == 2 && e.unsent[0] == x && e.unsent[1] == y); assert!(matches!(e.reason, BatchSendErrorReason::Closed)); } _ => panic!("try_send_batch after the last receiver is gone") }
+  { let mut v = vec![x, y]; match tx.try_send_batch_mut(&mut v) { Err(SendError::Closed) => assert!(v.len() == 2 && v[0] == x && v[1] == y), _ => panic!("try_send_batch_mut after the last receiver is gone") } }
+  assert!(snap(&tx.shared) == s0);
+  std::mem::forget(tx); std::mem::forget(rx);
+  kani::cover!(true, "END");
+}
+fn closed_value_async_sender() {
+  let (tx, rx, _a) = prefilled_async(false);
+  { let mut g = tx.shared.internal.lock(); g.receiver_count = 0; }
+  let s0 = snap(&tx.shared);
+  let x: u8 = kani::any();
+  let y: u8 = kani::any();
+  match tx.try_send(x) { Err(TrySendError::Closed(v)) => assert!(v == x), _ => panic!("try_send after the last receiver is gone") }
+  match tx.try_send_batch(vec![x, y]) { Err(e) => { assert!(e.sent == 0 && e.unsent.len() == 2 && e.unsent[0] == x && e.unsent[1] == y); assert!(matches!(e.reason, BatchSendErrorReason::Closed)); } _ => panic!("try_send_batch after the last receiver is gone") }
+  { let mut v = vec![x, y]; match tx.try_send_batch_mut(&mut v) { Err(SendError::Closed) => assert!(v.len() == 2 && v[0] == x && v[1] == y), _ => panic!("try_send_batch_mut after the last receiver is gone") } }
+  { let f = tx.send(x); let mut f = std::pin::pin!(f); match poll_once(f.as_mut(), 0) { Poll::Ready(Err(SendError::Closed)) => {}, _ => panic!("send after the last receiver is gone") } }
+  assert!(snap(&tx.shared) == s0);
+  std::mem::forget(tx); std::mem::forget(rx);
+  kani::cover!(true, "END");
+}
+
 // @obligation id=c04.mpmc.gate.Sender props=C04,C01 kind=hist tier=quick bound="bounded(1), empty for sender gates and holding one item (any u8) for receiver gates and conversions, side counts raised to 2 so that nothing disconnects; closed Sender: try_send, send, try_send_batch, send_batch, try_send_batch_mut, send_batch_mut, second close, drop - one call each"
 #[kani::proof]
 #[kani::stub(std::thread::current::current, crate::verif_k_stubs::stub_thread_current)]
@@ -421,3 +451,27 @@ fn ob_c04_mpmc_count_receivers_drop() { count_receivers(true); }
 #[kani::stub(std::time::Instant::now, stub_instant_now)]
 #[kani::unwind(6)]
 fn ob_c04_mpmc_count_receivers_close() { count_receivers(false); }
+
+// @obligation id=c04.mpmc.closed_value.Sender props=C04,C01 kind=hist tier=quick bound="bounded(1) empty, receiver_count set to 0; payloads any u8; try_send, try_send_batch, try_send_batch_mut of an open Sender"
+#[kani::proof]
+#[kani::stub(std::thread::current::current, crate::verif_k_stubs::stub_thread_current)]
+#[kani::stub(parking_lot::RawMutex::lock_slow, crate::verif_k_stubs::stub_lock_slow)]
+#[kani::stub(parking_lot::RawMutex::unlock_slow, crate::verif_k_stubs::stub_unlock_slow)]
+#[kani::stub(crate::sync::mutex::HybridMutex::lock_slow, crate::mpmc_v2::core::verif_k_mpmc_core::stub_hm_lock_slow)]
+#[kani::stub(std::thread::park, crate::verif_k_stubs::stub_park)]
+#[kani::stub(std::thread::park_timeout, crate::verif_k_stubs::stub_park_timeout)]
+#[kani::stub(std::time::Instant::now, stub_instant_now)]
+#[kani::unwind(6)]
+fn ob_c04_mpmc_closed_value_sender() { closed_value_sender(); }
+
+// @obligation id=c04.mpmc.closed_value.AsyncSender props=C04,C01 kind=hist tier=quick bound="bounded(1) empty, receiver_count set to 0; payloads any u8; try_send, try_send_batch, try_send_batch_mut, send (polled once) of an open AsyncSender"
+#[kani::proof]
+#[kani::stub(std::thread::current::current, crate::verif_k_stubs::stub_thread_current)]
+#[kani::stub(parking_lot::RawMutex::lock_slow, crate::verif_k_stubs::stub_lock_slow)]
+#[kani::stub(parking_lot::RawMutex::unlock_slow, crate::verif_k_stubs::stub_unlock_slow)]
+#[kani::stub(crate::sync::mutex::HybridMutex::lock_slow, crate::mpmc_v2::core::verif_k_mpmc_core::stub_hm_lock_slow)]
+#[kani::stub(std::thread::park, crate::verif_k_stubs::stub_park)]
+#[kani::stub(std::thread::park_timeout, crate::verif_k_stubs::stub_park_timeout)]
+#[kani::stub(std::time::Instant::now, stub_instant_now)]
+#[kani::unwind(6)]
+fn ob_c04_mpmc_closed_value_async_sender() { closed_value_async_sender(); }
